@@ -53,7 +53,7 @@ Qed.
 Theorem set_literal_order_irrelevant fuel rho l l' v :
   Permutation l l' -> eval fuel rho (ESetE l) = Ok v -> eval fuel rho (ESetE l') = Ok v.
 Proof.
-  intros Hp. destruct fuel as [|f]; [discriminate|]. cbn [eval].
+  intros Hp. destruct fuel as [|f]; [discriminate|]. cbn [eval evalF].
   set (g := fun e => rbind (eval f rho e) as_data).
   destruct (mapM g l) as [vs| | |] eqn:E; simpl; try discriminate.
   intros [= <-]. destruct (mapM_perm_ok g l l' vs Hp E) as (vs' & -> & Hp').
